@@ -1,6 +1,215 @@
 /- helper lemmas for TjdProps/C19.lean -/
 import Mathlib.Algebra.Order.Field.Basic
+import Mathlib.Tactic.Ring
+import Mathlib.Tactic.FieldSimp
 import TjdModel.Agg.Nash
 namespace Tjd.Agg
+open Tjd
+
+/-- the filter counting the calls of a history -/
+def isCall {α : Type} (o : NashOp α) : Bool := match o with | .call _ => true | .reset => false
+
+section
+variable {α : Type}
+
+/-- state after the first `n` calls of the stream `f 0, f 1, …` started in `st` -/
+def nashStateN (solve : Mat α → Vec α → Vec α) (k : Nat) (f : Nat → Mat α) (st : NashState α) :
+    Nat → NashState α
+  | 0 => st
+  | n + 1 => (nashStep solve k (nashStateN solve k f st n) (f n)).1
+
+theorem nashStep_step (solve : Mat α → Vec α → Vec α) (k : Nat) (st : NashState α) (J : Mat α) :
+    (nashStep solve k st J).1.step = st.step + 1 := by
+  unfold nashStep; split <;> rfl
+
+/-- the (pre-rescaling) output of a call is the new `prvs` -/
+theorem nashStep_out_eq_prvs (solve : Mat α → Vec α → Vec α) (k : Nat) (st : NashState α)
+    (J : Mat α) : (nashStep solve k st J).2.1 = (nashStep solve k st J).1.prvs := by
+  unfold nashStep; split <;> rfl
+
+theorem nashStep_inv (solve : Mat α → Vec α → Vec α) (k : Nat) (st : NashState α) (J : Mat α) :
+    (nashStep solve k st J).2.2 = decide (st.step % k = 0) := by
+  unfold nashStep; split <;> simp [*]
+
+theorem nashStep_prvs_of_ne (solve : Mat α → Vec α → Vec α) (k : Nat) (st : NashState α)
+    (J : Mat α) (h : st.step % k ≠ 0) : (nashStep solve k st J).1.prvs = st.prvs := by
+  unfold nashStep; rw [if_neg h]
+
+theorem nashStep_prvs_of_eq (solve : Mat α → Vec α → Vec α) (k : Nat) (st : NashState α)
+    (J : Mat α) (h : st.step % k = 0) : (nashStep solve k st J).1.prvs = solve J st.prvs := by
+  unfold nashStep; rw [if_pos h]
+
+theorem nashStateN_step (solve : Mat α → Vec α → Vec α) (k : Nat) (f : Nat → Mat α)
+    (st : NashState α) (n : Nat) : (nashStateN solve k f st n).step = st.step + n := by
+  induction n with
+  | zero => rfl
+  | succ n ih => simp only [nashStateN, nashStep_step, ih]; omega
+
+theorem nashStateN_shift (solve : Mat α → Vec α → Vec α) (k : Nat) (f : Nat → Mat α)
+    (st : NashState α) (n : Nat) :
+    nashStateN solve k f st (n + 1) =
+      nashStateN solve k (fun j => f (j + 1)) (nashStep solve k st (f 0)).1 n := by
+  induction n with
+  | zero => rfl
+  | succ n ih =>
+    show (nashStep solve k (nashStateN solve k f st (n + 1)) (f (n + 1))).1 = _
+    rw [ih]; rfl
+
+/-- the state only depends on the matrices actually consumed -/
+theorem nashStateN_congr (solve : Mat α → Vec α → Vec α) (k : Nat) (f g : Nat → Mat α)
+    (st : NashState α) (n : Nat) (h : ∀ j, j < n → f j = g j) :
+    nashStateN solve k f st n = nashStateN solve k g st n := by
+  induction n with
+  | zero => rfl
+  | succ n ih =>
+    simp only [nashStateN]
+    rw [ih (fun j hj => h j (by omega)), h n (by omega)]
+
+/-- pre-rescaling output of call `i` of the stream -/
+def nashOutN (solve : Mat α → Vec α → Vec α) (k : Nat) (f : Nat → Mat α) (st : NashState α)
+    (i : Nat) : Vec α :=
+  (nashStep solve k (nashStateN solve k f st i) (f i)).2.1
+
+theorem nashOutN_eq_prvs (solve : Mat α → Vec α → Vec α) (k : Nat) (f : Nat → Mat α)
+    (st : NashState α) (i : Nat) :
+    nashOutN solve k f st i = (nashStateN solve k f st (i + 1)).prvs := by
+  unfold nashOutN; rw [nashStep_out_eq_prvs]; rfl
+
+/-- between multiples of `k` nothing changes -/
+theorem nashStateN_prvs_between (solve : Mat α → Vec α → Vec α) (k : Nat) (f : Nat → Mat α)
+    (st : NashState α) (hst : st.step = 0) (q r : Nat) (hr : r < k) :
+    (nashStateN solve k f st (q * k + r + 1)).prvs = (nashStateN solve k f st (q * k + 1)).prvs := by
+  induction r with
+  | zero => rfl
+  | succ r ih =>
+    rw [← ih (by omega)]
+    show (nashStep solve k (nashStateN solve k f st (q * k + (r + 1))) _).1.prvs = _
+    rw [nashStep_prvs_of_ne]
+    · rfl
+    · rw [nashStateN_step, hst, Nat.zero_add, Nat.mul_comm, Nat.mul_add_mod,
+        Nat.mod_eq_of_lt hr]
+      omega
+
+theorem nashOutN_reuse (solve : Mat α → Vec α → Vec α) (k : Nat) (hk : 0 < k) (f : Nat → Mat α)
+    (st : NashState α) (hst : st.step = 0) (i : Nat) :
+    nashOutN solve k f st i = nashOutN solve k f st (i / k * k) := by
+  rw [nashOutN_eq_prvs, nashOutN_eq_prvs]
+  have h := nashStateN_prvs_between solve k f st hst (i / k) (i % k) (Nat.mod_lt _ hk)
+  have e : i / k * k + i % k = i := by rw [Nat.mul_comm]; exact Nat.div_add_mod i k
+  rw [e] at h
+  exact h
+
+/-- the weights produced at the recomputation call `q*k` -/
+theorem nashOutN_mul (solve : Mat α → Vec α → Vec α) (k : Nat) (f : Nat → Mat α)
+    (st : NashState α) (hst : st.step = 0) (q : Nat) :
+    nashOutN solve k f st (q * k) = solve (f (q * k)) (nashStateN solve k f st (q * k)).prvs := by
+  rw [nashOutN_eq_prvs]
+  show (nashStep solve k (nashStateN solve k f st (q * k)) _).1.prvs = _
+  rw [nashStep_prvs_of_eq]
+  rw [nashStateN_step, hst, Nat.zero_add, Nat.mul_mod_left]
+
+/-- sub-sampling: the `prvs` entering the recomputation `q*k` of the `k`-instance is the `prvs`
+    entering call `q` of the `1`-instance fed the sub-sampled stream -/
+theorem nashStateN_subsample (solve : Mat α → Vec α → Vec α) (k : Nat) (hk : 0 < k)
+    (f : Nat → Mat α) (st : NashState α) (hst : st.step = 0) (q : Nat) :
+    (nashStateN solve k f st (q * k)).prvs =
+      (nashStateN solve 1 (fun j => f (j * k)) st q).prvs := by
+  induction q with
+  | zero => simp only [Nat.zero_mul]; rfl
+  | succ q ih =>
+    have e : (q + 1) * k = q * k + (k - 1) + 1 := by rw [Nat.add_mul]; omega
+    rw [e, nashStateN_prvs_between solve k f st hst q (k - 1) (by omega)]
+    rw [← nashOutN_eq_prvs, nashOutN_mul solve k f st hst q, ih]
+    show _ = (nashStep solve 1 (nashStateN solve 1 (fun j => f (j * k)) st q) _).1.prvs
+    rw [nashStep_prvs_of_eq _ _ _ _ (Nat.mod_one _)]
+
+theorem nashOutN_subsample (solve : Mat α → Vec α → Vec α) (k : Nat) (hk : 0 < k)
+    (f : Nat → Mat α) (st : NashState α) (hst : st.step = 0) (q : Nat) :
+    nashOutN solve k f st (q * k) = nashOutN solve 1 (fun j => f (j * k)) st q := by
+  rw [nashOutN_mul solve k f st hst q, nashStateN_subsample solve k hk f st hst q]
+  have := nashOutN_mul solve 1 (fun j => f (j * k)) st hst q
+  simp only [Nat.mul_one] at this
+  rw [this]
+
+theorem nashOutN_congr (solve : Mat α → Vec α → Vec α) (k : Nat) (f g : Nat → Mat α)
+    (st : NashState α) (i : Nat) (h : ∀ j, j ≤ i → f j = g j) :
+    nashOutN solve k f st i = nashOutN solve k g st i := by
+  unfold nashOutN
+  rw [nashStateN_congr solve k f g st i (fun j hj => h j (by omega)), h i (Nat.le_refl _)]
+
+end
+
+section
+variable {α : Type} [One α] [Zero α] [Mul α] [Div α] [LT α] [DecidableLT α]
+
+theorem nashRun_reset (solve : Mat α → Vec α → Vec α) (norm : Mat α → Vec α → α) (m k : Nat)
+    (maxNorm : α) (st : NashState α) (ops : List (NashOp α)) :
+    nashRun solve norm m k maxNorm st (.reset :: ops) =
+      nashRun solve norm m k maxNorm (nashFresh m) ops := by
+  rw [nashRun]
+
+theorem nashRun_call (solve : Mat α → Vec α → Vec α) (norm : Mat α → Vec α → α) (m k : Nat)
+    (maxNorm : α) (st : NashState α) (J : Mat α) (ops : List (NashOp α)) :
+    nashRun solve norm m k maxNorm st (.call J :: ops) =
+      ((nashStep solve k st J).2.1, nashRescale norm maxNorm J (nashStep solve k st J).2.1,
+        (nashStep solve k st J).2.2) ::
+        nashRun solve norm m k maxNorm (nashStep solve k st J).1 ops := by
+  rw [nashRun]
+
+theorem nashRun_length (solve : Mat α → Vec α → Vec α) (norm : Mat α → Vec α → α) (m k : Nat)
+    (maxNorm : α) (st : NashState α) (ops : List (NashOp α)) :
+    (nashRun solve norm m k maxNorm st ops).length = (ops.filter isCall).length := by
+  induction ops generalizing st with
+  | nil => simp [nashRun]
+  | cons o ops ih =>
+    cases o with
+    | call J => rw [nashRun_call]; simp [List.filter_cons, isCall, ih]
+    | reset => rw [nashRun_reset]; simp [isCall, ih]
+
+/-- after the calls of a history (up to the next reset) the rest is that of a fresh instance -/
+theorem nashRun_append_reset_drop (solve : Mat α → Vec α → Vec α) (norm : Mat α → Vec α → α)
+    (m k : Nat) (maxNorm : α) (st : NashState α) (h cont : List (NashOp α)) :
+    (nashRun solve norm m k maxNorm st (h ++ .reset :: cont)).drop (h.filter isCall).length =
+      nashRun solve norm m k maxNorm (nashFresh m) cont := by
+  induction h generalizing st with
+  | nil => simp [nashRun_reset]
+  | cons o h ih =>
+    cases o with
+    | call J => rw [List.cons_append, nashRun_call]; simp [List.filter_cons, isCall, ih]
+    | reset => rw [List.cons_append, nashRun_reset]; simp [isCall, ih]
+
+/-- description of the `i`-th output on a history of calls only -/
+theorem nashRun_calls_getElem? (solve : Mat α → Vec α → Vec α) (norm : Mat α → Vec α → α)
+    (m k : Nat) (maxNorm : α) (Js : List (Mat α)) (st : NashState α) (i : Nat)
+    (hi : i < Js.length) :
+    (nashRun solve norm m k maxNorm st (Js.map NashOp.call))[i]? =
+      some (nashOutN solve k (fun j => Js.getD j []) st i,
+        nashRescale norm maxNorm (Js.getD i []) (nashOutN solve k (fun j => Js.getD j []) st i),
+        decide ((st.step + i) % k = 0)) := by
+  induction Js generalizing st i with
+  | nil => simp at hi
+  | cons J Js ih =>
+    rw [List.map_cons, nashRun_call]
+    cases i with
+    | zero =>
+      simp only [List.getElem?_cons_zero, nashOutN, nashStateN, List.getD_cons_zero, nashStep_inv,
+        Nat.add_zero]
+    | succ i =>
+      rw [List.getElem?_cons_succ, ih _ i (by simpa using hi)]
+      simp only [nashOutN, nashStateN_shift, List.getD_cons_succ, List.getD_cons_zero,
+        nashStep_step]
+      rw [show st.step + 1 + i = st.step + (i + 1) by omega]
+
+theorem nashRun_calls_getD (solve : Mat α → Vec α → Vec α) (norm : Mat α → Vec α → α)
+    (m k : Nat) (maxNorm : α) (Js : List (Mat α)) (st : NashState α) (i : Nat)
+    (hi : i < Js.length) (d : Vec α × Vec α × Bool) :
+    (nashRun solve norm m k maxNorm st (Js.map NashOp.call)).getD i d =
+      (nashOutN solve k (fun j => Js.getD j []) st i,
+        nashRescale norm maxNorm (Js.getD i []) (nashOutN solve k (fun j => Js.getD j []) st i),
+        decide ((st.step + i) % k = 0)) := by
+  rw [List.getD_eq_getElem?_getD, nashRun_calls_getElem? solve norm m k maxNorm Js st i hi]
+  rfl
+
+end
 
 end Tjd.Agg
